@@ -180,8 +180,10 @@ def run_scalar(ctx, p):
     x = np.asarray(x, dtype=np.float64) if not np.isscalar(x) else float(x)
     f = {'isunitvec': base.isunitvec, 'iszerovec': base.iszerovec, 'iszero': base.iszero, 'isskew': base.isskew,
          'isskewa': base.isskewa, 'iseye': base.iseye, 'isunit': bq.isunit, 'isunittwist': base.isunittwist,
-         'isunittwist2': base.isunittwist2}[name]
-    sig = dict(api='base.' + name, want=bool(want), cls=p.get('case', ''))
+         'isunittwist2': base.isunittwist2,
+         # the twist classes' own unit predicate (a property): same definition of a unit twist
+         'Twist3.isunit': lambda v: S().Twist3(v).isunit, 'Twist2.isunit': lambda v: S().Twist2(v).isunit}[name]
+    sig = dict(api=('base.' + name) if '.' not in name else name, want=bool(want), cls=p.get('case', ''))
     try:
         r = bool(f(x))
     except Exception as e:
@@ -359,7 +361,17 @@ PRED_FOR = {'SO3': ['isR', 'isrot', 'SO3.isvalid'], 'SE3': ['ishom', 'SE3.isvali
 
 
 def scalar_case(rng):
-    name = ['isunitvec', 'iszerovec', 'iszero', 'isskew', 'isskewa', 'iseye', 'isunit', 'isunittwist', 'isunittwist2'][rng.integers(9)]
+    name = ['isunitvec', 'iszerovec', 'iszero', 'isskew', 'isskewa', 'iseye', 'isunit', 'isunittwist', 'isunittwist2', 'Twist3.isunit', 'Twist2.isunit'][rng.integers(11)]
+    if name in ('Twist3.isunit', 'Twist2.isunit'):
+        real = name
+        name = 'isunittwist' if name == 'Twist3.isunit' else 'isunittwist2'
+        out = _scalar_case_for(rng, name)
+        out['pred'] = real
+        return out
+    return _scalar_case_for(rng, name)
+
+
+def _scalar_case_for(rng, name):
     off = gen.sign(rng) * gen.logu(rng, 2e-6, 1.0)     # outside the 1e-6 band
     yes = rng.random() < 0.5
     if name == 'isunitvec':
